@@ -403,7 +403,7 @@ class Engine:
         obls = []
         args = ctx.args
         hyps = self.hyps(ctx)
-        meta = {'leaves': {k: v[0] for k, v in ctx.sb.leaves.items()}}
+        meta = {'leaves': {k: v[0] for k, v in ctx.sb.leaves.items()}, 'ctx': ctx}
 
         def add(name, goal, extra_facts=(), kind='post', hy=None):
             o = Obligation(prop, cname, case, name, n, (hy if hy is not None else hyps) + list(extra_facts), goal, kind=kind, meta=dict(meta))
@@ -414,6 +414,7 @@ class Engine:
         for name, kind in forall.items():
             s = ctx.sb._leaf(f'forall.{name}', {'int': 'int', 'real': 'real', 'bool': 'bool', 'index': 'int'}[kind])
             sk[name] = s
+        meta['skolems'] = sk
         univ = []
         for (nn, f) in ctx.ghost.get('univ', []):
             for name, s in sk.items():
@@ -481,6 +482,42 @@ class Engine:
         for i, (sname, cond, pcs) in enumerate(ctx.side):
             add(f'side.{sname}#{i}', cond, kind='side', hy=list(N.GLOBAL_FACTS) + list(ctx.facts) + list(pcs))
         return obls
+
+    def case_kwargs(self, entry, case):
+        I = self.I
+        cases = self.contract_attr(entry['cls'], 'cases')
+        if cases is None:
+            return {}
+        ckw = dict(I.dict_items(cases)).get(case)
+        if ckw is None:
+            return {}
+        out = {}
+        for k, v in (ckw.items() if isinstance(ckw, dict) else I.dict_items(ckw)):
+            out[k] = v if isinstance(v, (int, float, str, bool, type(None))) else repr(v)
+        return out
+
+    def known_split(self, o, k):
+        """for a recorded finding: (obligation on the complement of the finding's predicate, reproduction query)"""
+        I = self.I
+        cls = o.entry['cls']
+        findings = self.contract_attr(cls, 'findings')
+        if findings is None:
+            return None
+        findings = dict(I.dict_items(findings))
+        fn = findings.get(k['id'])
+        if fn is None:
+            return None
+        ctx = o.meta.get('ctx')
+        if ctx is None:
+            return None
+        sk = o.meta.get('skolems', {})
+        try:
+            g, fx = self.eval_clause(ctx, fn, self.select_args(fn, ctx.args, sk))
+        except Exception as e:
+            return None
+        comp = Obligation(o.prop, o.contract, o.case, o.name, o.path, o.hyps + list(fx) + [z3.Not(g)], o.goal, kind=o.kind, meta=o.meta)
+        repro = Obligation(o.prop, o.contract, o.case, o.name + '[reproduces]', o.path, o.hyps + list(fx) + [g], o.goal, kind=o.kind, meta=o.meta)
+        return comp, repro
 
 
 class EventsView(B.HostObj):
@@ -555,7 +592,12 @@ def _solve(job):
                     model[d.name()] = val_to_py(v)
                 else:
                     try:
-                        model[d.name()] = {'func': str(m[d])[:2000]}
+                        fi = m[d]
+                        ents = []
+                        for i in range(fi.num_entries()):
+                            en = fi.entry(i)
+                            ents.append(([val_to_py(en.arg_value(j)) for j in range(en.num_args())], val_to_py(en.value())))
+                        model[d.name()] = {'entries': ents, 'else': val_to_py(fi.else_value())}
                     except Exception:
                         pass
         return idx, status, time.time() - t0, model, backend, reason
